@@ -369,7 +369,7 @@ def run(tier, seed, t0):
         core.write_ndjson(tf, rows)
         VC = {"ZMax": 0, "MaxLen": 0}
         val = core.validate("Trace_Values", "JPair", tf, work, constants=VC, timeout=3000)
-        rejected, clauses = [], Counter()
+        rejected, clauses = core.track([]), Counter()
         for t, v in zip(rows, val["verdicts"]):
             clauses[v[0]] += 1
             if v[0] != "ok":
